@@ -89,8 +89,8 @@ PROPS = {
                 "the Metadata closures with scripted adapters; non-trivial = distinct (method, token list)",
     },
     "C09": {
-        "lean": ["AriVerif.Props.C09", "AriVerif.Props.C09S", "AriVerif.Props.C06"],
-        "gen": ["Layouts"],
+        "lean": ["AriVerif.Props.C09", "AriVerif.Props.C09S", "AriVerif.Props.C06", "AriVerif.Props.SkelReader"],
+        "gen": ["Layouts", "Skeleton"],
         "streams": [s_wire.stream_requests, s_wire.stream_meta, s_dispatch.stream],
         "trusted": [KERNEL, HARNESS, "request layouts hand-written (Requests.schemas), tied by the malformed-stream differential",
                     "modelled, not verified: the remoting_exception_on_parse decorator (every exception inside read_* becomes the "
@@ -117,8 +117,8 @@ PROPS = {
                 "stream placing {int, bool, float, bytes, str, None, list, dict, tuple, object} in every slot; non-trivial = distinct operation",
     },
     "C15": {
-        "lean": ["AriVerif.Props.C15"],
-        "gen": [],
+        "lean": ["AriVerif.Props.C15", "AriVerif.Props.SkelReader"],
+        "gen": ["Skeleton"],
         "streams": [s_framing.stream],
         "trusted": [KERNEL, HARNESS, "modelled, not verified: str.splitlines(keepends=True) of CPython on ASCII text (compared on every "
                     "segmentation incl. malformed streams with lone CR / VT / FF / FS / GS / RS)"],
@@ -129,8 +129,8 @@ PROPS = {
                 "real _RequestManager._do_run is run in-process on a scripted socket; non-trivial = distinct segmentation",
     },
     "C13": {
-        "lean": ["AriVerif.Props.C13"],
-        "gen": ["KeepAlive"],
+        "lean": ["AriVerif.Props.C13", "AriVerif.Props.SkelSender"],
+        "gen": ["KeepAlive", "Skeleton"],
         "streams": [s_sender.stream, s_sender.stream_e2e],
         "trusted": [KERNEL, HARNESS, "the scheduler shim (harness/shim.py): its semantics for Lock/RLock, Queue (FIFO, unbounded), Event, Thread, ThreadPoolExecutor (FIFO work queue, <= n running, shutdown waits), socket (recv returns a non-empty prefix, b'' at EOF; sendall all-or-exception), virtual clock; the real code runs unmodified, module attributes are patched from the harness",
                     "real timers and scheduling latency are not modelled: bounds are exact in virtual time only"],
@@ -141,8 +141,8 @@ PROPS = {
                 "non-trivial = history in which at least one KEEPALIVE and one message are written (distinct histories)",
     },
     "C14": {
-        "lean": ["AriVerif.Props.C14", "AriVerif.Props.C16S"],
-        "gen": [],
+        "lean": ["AriVerif.Props.C14", "AriVerif.Props.C16S", "AriVerif.Props.SkelLifecycle"],
+        "gen": ["Skeleton"],
         "streams": [s_conc.data_stream(["C14"], "data-cosim-startup"), s_wire.stream_writers],
         "trusted": [KERNEL, HARNESS, "the scheduler shim (harness/shim.py): its semantics for Lock/RLock, Queue (FIFO, unbounded), Event, Thread, ThreadPoolExecutor (FIFO work queue, <= n running, shutdown waits), socket (recv returns a non-empty prefix, b'' at EOF; sendall all-or-exception), virtual clock; the real code runs unmodified, module attributes are patched from the harness",
                     "Startup.lean abstracts every reader-side producer as an `.enqueue` guarded by 'reader started'; that the real "
@@ -152,8 +152,8 @@ PROPS = {
                 "the runs, random schedules of the starting thread against writer, reader and proxy; non-trivial = scenario with pipelined requests",
     },
     "C16": {
-        "lean": ["AriVerif.Props.C16", "AriVerif.Props.C16S", "AriVerif.Conc.DataFifo", "AriVerif.Props.C04S"],
-        "gen": [],
+        "lean": ["AriVerif.Props.C16", "AriVerif.Props.C16S", "AriVerif.Conc.DataFifo", "AriVerif.Props.C04S", "AriVerif.Props.SkelSub", "AriVerif.Props.SkelSender"],
+        "gen": ["Skeleton"],
         "streams": [s_conc.data_stream(["C16"], "data-cosim-outbound"), s_sender.stream, s_real.stream_outbound],
         "trusted": [KERNEL, HARNESS, "the scheduler shim (harness/shim.py): its semantics for Lock/RLock, Queue (FIFO, unbounded), Event, Thread, ThreadPoolExecutor (FIFO work queue, <= n running, shutdown waits), socket (recv returns a non-empty prefix, b'' at EOF; sendall all-or-exception), virtual clock; the real code runs unmodified, module attributes are patched from the harness",
                     "contiguity of one sendall on a real socket is the OS's; queue.Queue being FIFO is CPython's"],
@@ -162,9 +162,9 @@ PROPS = {
                 "sampled; written lines compared with the enqueue order; non-trivial = scenario with pipelined requests",
     },
     "C10": {
-        "lean": ["AriVerif.Props.C10", "AriVerif.Props.C10S"],
-        "gen": ["Version"],
-        "streams": [s_dispatch.stream],
+        "lean": ["AriVerif.Props.C10", "AriVerif.Props.C10S", "AriVerif.Props.SkelLifecycle", "AriVerif.Props.SkelMetaPool"],
+        "gen": ["Version", "Skeleton"],
+        "streams": [s_dispatch.stream, s_conc.init_race_stream],
         "trusted": [KERNEL, HARNESS, "Dispatch.lean (classify / act) is hand-written and tied by the reader-dispatch differential only: the real "
                     "Server.on_received_request of both kinds is run in-process with recording stubs (request manager, executor, socket, "
                     "subscription manager, adapter, exception handler)",
@@ -179,8 +179,8 @@ PROPS = {
                 "ok / raising; non-trivial = distinct (kind, handler, line sequence)",
     },
     "C20": {
-        "lean": ["AriVerif.Props.C20"],
-        "gen": [],
+        "lean": ["AriVerif.Props.C20", "AriVerif.Props.SkelReader", "AriVerif.Props.SkelLifecycle"],
+        "gen": ["Skeleton"],
         "streams": [s_fault.stream, s_dispatch.stream],
         "trusted": [KERNEL, HARNESS, "the scheduler shim (harness/shim.py): Lock/RLock, Queue, Event, Thread, ThreadPoolExecutor, scripted socket with fault injection, virtual clock",
                     "os._exit is substituted by the shim (recorded, thread unwound); real process exit and real socket shutdown semantics are the OS's",
@@ -192,8 +192,8 @@ PROPS = {
                 "thread; handler absent / True / False / None; pool 1-3 with pool tasks in flight; random schedules; non-trivial = distinct scenario",
     },
     "C04": {
-        "lean": ["AriVerif.Props.C04", "AriVerif.Props.C04S", "AriVerif.Conc.MetaProj"],
-        "gen": [],
+        "lean": ["AriVerif.Props.C04", "AriVerif.Props.C04S", "AriVerif.Conc.MetaProj", "AriVerif.Props.SkelMetaPool"],
+        "gen": ["Skeleton"],
         "streams": [s_conc.meta_stream(["C04"], "meta-cosim"), s_wire.stream_meta, s_conc.meta_fine_stream(["C04"])],
         "trusted": [KERNEL, HARNESS, "the scheduler shim (harness/shim.py): Lock/RLock, Queue, Event, Thread, ThreadPoolExecutor (FIFO work queue, <= n running), scripted socket, virtual clock; line-level preemption via sys.settrace in the fine-grained streams",
                     "Meta.metaExec (which adapter methods, arguments, order, reply) is hand-written and tied by the closures differential "
@@ -208,8 +208,8 @@ PROPS = {
                 "library threads and state after every chunk; non-trivial = scenario with more than one request or concurrent adapter calls",
     },
     "C18": {
-        "lean": ["AriVerif.Props.C18", "AriVerif.Props.C10S"],
-        "gen": ["Pool"],
+        "lean": ["AriVerif.Props.C18", "AriVerif.Props.C10S", "AriVerif.Props.SkelSub", "AriVerif.Props.SkelMetaPool"],
+        "gen": ["Pool", "Skeleton"],
         "streams": [s_conc.meta_stream(["C18"], "meta-cosim"), s_conc.data_stream(["C18", "C02"], "data-cosim-threads"), s_init.stream_pool],
         "trusted": [KERNEL, HARNESS, "the scheduler shim (harness/shim.py): Lock/RLock, Queue, Event, Thread, ThreadPoolExecutor (FIFO work queue, <= n running), scripted socket, virtual clock; line-level preemption via sys.settrace in the fine-grained streams",
                     "harness/extract.py for Gen/Pool.lean (pool sizing), mitigated by the constructor differential with cpu_count patched",
@@ -220,8 +220,8 @@ PROPS = {
                 "constructor grid thread_pool_size in {None, -7..1000} x cpu_count in {1, 2, 8, 64, NotImplementedError} on both kinds",
     },
     "C01": {
-        "lean": ["AriVerif.Props.C01", "AriVerif.Conc.DataProj"],
-        "gen": [],
+        "lean": ["AriVerif.Props.C01", "AriVerif.Conc.DataProj", "AriVerif.Props.SkelSub"],
+        "gen": ["Skeleton"],
         "streams": [s_conc.data_stream(["C01"], "data-cosim"), s_conc.data_fine_stream(["C01"])],
         "trusted": [KERNEL, HARNESS, "the scheduler shim (harness/shim.py): Lock/RLock, Queue, Event, Thread, ThreadPoolExecutor (FIFO work queue, <= n running), scripted socket, virtual clock; line-level preemption via sys.settrace in the fine-grained streams",
                     "Conc/Item.lean is hand-written; it is tied to the real DataProviderServer / SubscriptionManager / _ItemTaskManager by lock-step "
@@ -237,8 +237,8 @@ PROPS = {
         "rule": "Data-server scenarios: 1-3 items, per item 1-12 alternating requests merged in random wire order, pool 1-4, inbound stream cut per line / merged / at random byte offsets (both terminators), snapshot availability in {True, False, None, raises}, subscribe / unsubscribe outcomes in {ok, SubscribeError, FailureError, RuntimeError}, 0-2 events submitted from inside adapter calls (any item), 0-2 adapter-owned threads with 1-4 listener calls each, probe events after quiescence, credentials and early delivery; every run under a seeded random schedule; lock-step comparison after every chunk; plus fine-grained runs (line-level preemption inside subscription.py / server.py); non-trivial = a request arrived while its item's dequeuer was working, or a skipped subscription (chunk-level), every run (fine-grained)",
     },
     "C02": {
-        "lean": ["AriVerif.Props.C02"],
-        "gen": [],
+        "lean": ["AriVerif.Props.C02", "AriVerif.Props.SkelSub"],
+        "gen": ["Skeleton"],
         "streams": [s_conc.data_stream(["C02"], "data-cosim"), s_conc.data_fine_stream(["C02"])],
         "trusted": [KERNEL, HARNESS, "the scheduler shim (harness/shim.py): Lock/RLock, Queue, Event, Thread, ThreadPoolExecutor (FIFO work queue, <= n running), scripted socket, virtual clock; line-level preemption via sys.settrace in the fine-grained streams",
                     "Conc/Item.lean is hand-written; it is tied to the real DataProviderServer / SubscriptionManager / _ItemTaskManager by lock-step "
@@ -254,8 +254,8 @@ PROPS = {
         "rule": "Data-server scenarios: 1-3 items, per item 1-12 alternating requests merged in random wire order, pool 1-4, inbound stream cut per line / merged / at random byte offsets (both terminators), snapshot availability in {True, False, None, raises}, subscribe / unsubscribe outcomes in {ok, SubscribeError, FailureError, RuntimeError}, 0-2 events submitted from inside adapter calls (any item), 0-2 adapter-owned threads with 1-4 listener calls each, probe events after quiescence, credentials and early delivery; every run under a seeded random schedule; lock-step comparison after every chunk; plus fine-grained runs (line-level preemption inside subscription.py / server.py); non-trivial = a request arrived while its item's dequeuer was working, or a skipped subscription (chunk-level), every run (fine-grained)",
     },
     "C03": {
-        "lean": ["AriVerif.Props.C03"],
-        "gen": [],
+        "lean": ["AriVerif.Props.C03", "AriVerif.Props.SkelSub"],
+        "gen": ["Skeleton"],
         "streams": [s_conc.data_stream(["C03"], "data-cosim"), s_conc.data_fine_stream(["C03"])],
         "trusted": [KERNEL, HARNESS, "the scheduler shim (harness/shim.py): Lock/RLock, Queue, Event, Thread, ThreadPoolExecutor (FIFO work queue, <= n running), scripted socket, virtual clock; line-level preemption via sys.settrace in the fine-grained streams",
                     "Conc/Item.lean is hand-written; it is tied to the real DataProviderServer / SubscriptionManager / _ItemTaskManager by lock-step "
@@ -271,8 +271,8 @@ PROPS = {
         "rule": "Data-server scenarios: 1-3 items, per item 1-12 alternating requests merged in random wire order, pool 1-4, inbound stream cut per line / merged / at random byte offsets (both terminators), snapshot availability in {True, False, None, raises}, subscribe / unsubscribe outcomes in {ok, SubscribeError, FailureError, RuntimeError}, 0-2 events submitted from inside adapter calls (any item), 0-2 adapter-owned threads with 1-4 listener calls each, probe events after quiescence, credentials and early delivery; every run under a seeded random schedule; lock-step comparison after every chunk; plus fine-grained runs (line-level preemption inside subscription.py / server.py); non-trivial = a request arrived while its item's dequeuer was working, or a skipped subscription (chunk-level), every run (fine-grained)",
     },
     "C17": {
-        "lean": ["AriVerif.Props.C17"],
-        "gen": [],
+        "lean": ["AriVerif.Props.C17", "AriVerif.Props.SkelSub"],
+        "gen": ["Skeleton"],
         "streams": [s_conc.data_stream(["C17"], "data-cosim"), s_conc.data_fine_stream(["C17"])],
         "trusted": [KERNEL, HARNESS, "the scheduler shim (harness/shim.py): Lock/RLock, Queue, Event, Thread, ThreadPoolExecutor (FIFO work queue, <= n running), scripted socket, virtual clock; line-level preemption via sys.settrace in the fine-grained streams",
                     "Conc/Item.lean is hand-written; it is tied to the real DataProviderServer / SubscriptionManager / _ItemTaskManager by lock-step "
@@ -288,8 +288,8 @@ PROPS = {
         "rule": "Data-server scenarios: 1-3 items, per item 1-12 alternating requests merged in random wire order, pool 1-4, inbound stream cut per line / merged / at random byte offsets (both terminators), snapshot availability in {True, False, None, raises}, subscribe / unsubscribe outcomes in {ok, SubscribeError, FailureError, RuntimeError}, 0-2 events submitted from inside adapter calls (any item), 0-2 adapter-owned threads with 1-4 listener calls each, probe events after quiescence, credentials and early delivery; every run under a seeded random schedule; lock-step comparison after every chunk; plus fine-grained runs (line-level preemption inside subscription.py / server.py); non-trivial = a request arrived while its item's dequeuer was working, or a skipped subscription (chunk-level), every run (fine-grained)",
     },
     "C19": {
-        "lean": ["AriVerif.Props.C19"],
-        "gen": [],
+        "lean": ["AriVerif.Props.C19", "AriVerif.Props.SkelSub"],
+        "gen": ["Skeleton"],
         "streams": [s_conc.data_stream(["C19"], "data-cosim"), s_conc.data_fine_stream(["C19"]), s_real.stream_census],
         "trusted": [KERNEL, HARNESS, "the scheduler shim (harness/shim.py): Lock/RLock, Queue, Event, Thread, ThreadPoolExecutor (FIFO work queue, <= n running), scripted socket, virtual clock; line-level preemption via sys.settrace in the fine-grained streams",
                     "Conc/Item.lean is hand-written; it is tied to the real DataProviderServer / SubscriptionManager / _ItemTaskManager by lock-step "
